@@ -50,7 +50,7 @@ KNOWN_FINDING_SIGS = [
 ]
 
 KNOWN_FINDING_WHAT = (
-    "D-11: a JSON null in a validator-API request body makes the handler goroutine panic (net/http recovers it and closes "
+    "observation O-1: a JSON null in a validator-API request body makes the handler goroutine panic (net/http recovers it and closes "
     "the connection without a response; the process survives): `[null]` or a null list element on "
     "submit_sync_committee_messages / submit_contribution_and_proofs / aggregate_beacon_committee_selections / "
     "aggregate_sync_committee_selections is decoded into a nil pointer that the Component method dereferences "
